@@ -8,7 +8,7 @@ use crate::{
     world::{exec_variant, file_bytes, file_text, map_offset, Enc, Entry, Extra, FileSpec, Obs, Outcome, Variant, WorldTrace},
 };
 
-pub const FILE_NAMES: &[&str] = &["a.st", "b.st", "c.st", "main.st", "lib.ST", "z_types.st", "m.iec", "0.st"];
+pub const FILE_NAMES: &[&str] = &["a.st", "b.st", "c.st", "main.st", "lib.ST", "z_types.st", "m.iec", "0.st", "A.st", "LIB.st", "Main.st"];
 
 fn viol(prop: &str, signature: String, detail: String) -> Violation {
     Violation { property: prop.to_string(), signature, detail }
@@ -403,7 +403,50 @@ fn dynamic_fault(rng: &mut Rng, world: &World, v: &mut Variant) {
     v.faults.push(Fault { at, target, action });
 }
 
-pub fn gen_c13(rng: &mut Rng, thorough: bool) -> WorldTrace {
+/// Deterministic boundary cases of the C13 campaign (run indices 0..C13_BOUNDARY_RUNS): sets that
+/// produce 255, 256 and 257 diagnostics (exit statuses are 8 bit wide, counters wrap).
+pub const C13_BOUNDARY_RUNS: u64 = 9;
+
+fn gen_c13_boundary(rng: &mut Rng, index: u64) -> WorldTrace {
+    let n = [255usize, 256, 257][(index % 3) as usize];
+    let which = index / 3;
+    let mut decls = vec![];
+    let mut files = vec![];
+    let (entry, role) = match which {
+        0 => {
+            // check: n files with one syntax error each, plus one valid file
+            for i in 0..n {
+                decls.push(pool::Decl { text: format!("FUNCTION_BLOCK Bad{i}\n  VAR\n    cnt : INT;\n  END_VAR\n  cnt := ;\nEND_FUNCTION_BLOCK\n"), kind: "fault".into(), name: format!("Bad{i}") });
+                files.push(FileSpec { name: format!("bad{i:03}.st"), decls: vec![i], enc: Enc::Utf8, raw: None });
+            }
+            decls.push(pool::Decl { text: "FUNCTION_BLOCK Good\n  VAR\n    cnt : INT;\n  END_VAR\n  cnt := 1;\nEND_FUNCTION_BLOCK\n".into(), kind: "fb".into(), name: "Good".into() });
+            files.push(FileSpec { name: "good.st".into(), decls: vec![n], enc: Enc::Utf8, raw: None });
+            (Entry::Check, "dir")
+        }
+        1 => {
+            // echo: n files that do not parse
+            for i in 0..n {
+                decls.push(pool::Decl { text: format!("PROGRAM Bad{i}\n  VAR\n    cnt INT;\n  END_VAR\nEND_PROGRAM\n"), kind: "fault".into(), name: format!("Bad{i}") });
+                files.push(FileSpec { name: format!("bad{i:03}.st"), decls: vec![i], enc: Enc::Utf8, raw: None });
+            }
+            (Entry::Echo, "parts")
+        }
+        _ => {
+            // tokenize: one file with n invalid characters
+            decls.push(pool::Decl { text: format!("FUNCTION_BLOCK Lex\n  VAR\n    cnt : INT;\n  END_VAR\n  cnt := 1;\nEND_FUNCTION_BLOCK\n{}\n", "? ".repeat(n)), kind: "fault".into(), name: "Lex".into() });
+            files.push(FileSpec { name: "lex.st".into(), decls: vec![0], enc: Enc::Utf8, raw: None });
+            (Entry::Tokenize, "parts")
+        }
+    };
+    let world = World { decls, fault: None };
+    let v = Variant { role: role.into(), entry, files, extras: vec![], args: vec!["ws".into()], dir_seed: rng.next(), hash_seed: rng.next(), faults: vec![] };
+    WorldTrace { prop: "C13".into(), world, variants: vec![v], mode: format!("boundary:{n}") }
+}
+
+pub fn gen_c13(rng: &mut Rng, thorough: bool, run_index: u64) -> WorldTrace {
+    if run_index < C13_BOUNDARY_RUNS {
+        return gen_c13_boundary(rng, run_index);
+    }
     let size = rng.range(1, if thorough { 7 } else { 5 });
     let world = if rng.chance(1, 3) {
         pool::gen_valid(rng, size)
@@ -796,7 +839,7 @@ pub fn gen_c14(rng: &mut Rng, thorough: bool, run_index: u64) -> WorldTrace {
         let args = present(rng, &files);
         let dir_seed = rng.next();
         let hash_seed = rng.next();
-        let entry = *rng.pick(&[Entry::Check, Entry::Check, Entry::ApiPush, Entry::Tokenize]);
+        let entry = *rng.pick(&[Entry::Check, Entry::Check, Entry::ApiPush, Entry::Tokenize, Entry::Echo]);
         for role in ["twin", "twin", "twin"] {
             let mut f = files.clone();
             assign_encodings(rng, &world, &mut f, allow_1252);
@@ -1213,7 +1256,7 @@ pub fn execute(t: &WorldTrace, stats: &mut Stats) -> RunReport {
     };
     // non-trivial: the oracle had something to compare (several executions of a non-empty world, or
     // the byte sweep's raw file; for C03 the reference run must have failed or the world is a clash)
-    let nontrivial = t.variants.len() >= 2
+    let nontrivial = (t.variants.len() >= 2 || t.mode.starts_with("boundary:"))
         && (!t.world.decls.is_empty() || t.variants.iter().any(|v| v.files.iter().any(|f| f.raw.is_some())))
         && (t.prop != "C03" || t.mode == "clash" || obs.first().map(|o| o.failed()).unwrap_or(false));
     // fault-free executions of the command line can be cross-checked against the shipped binary
@@ -1250,7 +1293,7 @@ pub fn execute(t: &WorldTrace, stats: &mut Stats) -> RunReport {
 pub fn generate(prop: &str, rng: &mut Rng, thorough: bool, run_index: u64) -> WorldTrace {
     match prop {
         "C06" => gen_c06(rng, thorough),
-        "C13" => gen_c13(rng, thorough),
+        "C13" => gen_c13(rng, thorough, run_index),
         "C14" => gen_c14(rng, thorough, run_index),
         "C03" => gen_c03(rng, thorough),
         other => panic!("no world generator for {other}"),
